@@ -5,12 +5,23 @@
 //   mon <verdict> / sched ... / end.   Element type counts copy-constructions and carries a tag.
 #include <oneapi/tbb/concurrent_vector.h>
 #include <cstdio>
+#include <map>
 #include <cstring>
 #include <sstream>
 #include <string>
 #include <vector>
 
 static long g_copies;     // only touched while holding the baton
+static std::map<uintptr_t, size_t> g_live;
+static std::string g_obs_err;
+// is [p, p+sizeof(E)) inside element storage the vector's allocator handed out and has not taken back?
+static bool in_live_storage(const void* p) {
+    uintptr_t a = (uintptr_t)p;
+    auto it = g_live.upper_bound(a);
+    if (it == g_live.begin()) return false;
+    --it;
+    return a >= it->first && a + 8 <= it->first + it->second;
+}
 static long g_fault_ctor = 0, g_fault_alloc = 0, g_allocs = 0, g_faults_fired = 0;
 struct E {
     unsigned tag, magic;
@@ -24,9 +35,11 @@ template <class T> struct fault_alloc {
     template <class U> fault_alloc(const fault_alloc<U>&) {}
     T* allocate(size_t n) {
         if (sizeof(T) == sizeof(E)) { ++g_allocs; if (g_fault_alloc && g_allocs == g_fault_alloc) { ++g_faults_fired; throw std::bad_alloc(); } }
-        return static_cast<T*>(::operator new(n * sizeof(T)));
+        T* p = static_cast<T*>(::operator new(n * sizeof(T)));
+        if (sizeof(T) == sizeof(E)) g_live[(uintptr_t)p] = n * sizeof(T);          // ledger of element storage (only touched while holding the baton)
+        return p;
     }
-    void deallocate(T* p, size_t) { ::operator delete(p); }
+    void deallocate(T* p, size_t) { g_live.erase((uintptr_t)p); ::operator delete(p); }
     template <class U> bool operator==(const fault_alloc<U>&) const { return true; }
     template <class U> bool operator!=(const fault_alloc<U>&) const { return false; }
 };
@@ -35,7 +48,7 @@ struct Op { int kind; size_t arg; size_t start, end; bool claimed; const E* addr
 static std::vector<std::vector<Op>> g_progs;
 
 static bool run_once(verif::Schedule& sch, int run_idx, bool print) {
-    g_copies = 0; g_allocs = 0; g_faults_fired = 0;
+    g_copies = 0; g_allocs = 0; g_faults_fired = 0; g_live.clear(); g_obs_err.clear();
     g_fault_ctor = getenv("VERIF_FAULT_CTOR") ? atol(getenv("VERIF_FAULT_CTOR")) : 0;
     g_fault_alloc = getenv("VERIF_FAULT_ALLOC") ? atol(getenv("VERIF_FAULT_ALLOC")) : 0;
     bool faulty = g_fault_ctor || g_fault_alloc;
@@ -61,9 +74,29 @@ static bool run_once(verif::Schedule& sch, int run_idx, bool print) {
               catch (int) { c.threw = 2; c.claimed = false; }
         }
     });
+    // VERIF_OBSERVER=<rounds>: one more thread that only observes, while the growers run: every index below size() (and every position of
+    // [begin(), end())) names storage the vector has allocated -- size() may count elements still under construction, never a missing segment
+    int obs_rounds = getenv("VERIF_OBSERVER") ? atoi(getenv("VERIF_OBSERVER")) : 0;
+    if (obs_rounds > 0) bodies.push_back([&, obs_rounds] {
+        for (int k = 0; k < obs_rounds && g_obs_err.empty(); ++k) {
+            size_t n = v.size();
+            for (size_t i = 0; i < n && g_obs_err.empty(); ++i)
+                if (!in_live_storage(&v[i])) g_obs_err = "while growth is in flight size() = " + std::to_string(n) + " but the address of element " + std::to_string(i) + " is not inside storage the vector allocated (segment missing)";
+            size_t steps = 0;
+            for (auto it = v.begin(); it != v.end() && g_obs_err.empty() && steps < 100000; ++it, ++steps)
+                if (!in_live_storage(&*it)) g_obs_err = "while growth is in flight iteration over [begin(), end()) reaches an address outside the vector's storage (index " + std::to_string(it - v.begin()) + ")";
+        }
+    });
     verif::Result r = verif::run(bodies, sch);
     std::string err;
     if (r.deadlock) err = "DEADLOCK";
+    else if (!g_obs_err.empty()) err = g_obs_err;
+    if (!r.deadlock && err.empty()) {
+        // every index below size() names allocated storage, also after a fault (operator[], iterators and back() do no check of their own)
+        size_t n = v.size();
+        for (size_t i = 0; i < n; ++i) if (!in_live_storage(&v[i])) { err = "size() = " + std::to_string(n) + " but the address of element " + std::to_string(i) + " is not inside storage the vector allocated (segment missing)"; break; }
+    }
+    if (!err.empty()) {}
     else if (faulty && g_faults_fired) {
         // failure clauses of the property: the vector stays destructible and every later access either works or throws,
         // without touching unallocated memory (a wild access crashes the process: see verif::report_crashes)
@@ -95,7 +128,7 @@ static bool run_once(verif::Schedule& sch, int run_idx, bool print) {
     bool ok = err.empty();
     if (print || !ok) {
         printf("run %d\n", run_idx);
-        for (auto& e : r.log) if (e.addr == size_addr && e.kind <= verif::K_FXOR)
+        for (auto& e : r.log) if (e.addr == size_addr && e.kind <= verif::K_FXOR && (size_t)e.tid < T)
             printf("e %d %s %llu %llu %d\n", e.tid, verif::kind_name(e.kind), (unsigned long long)e.a, (unsigned long long)e.b, e.ok);
         for (size_t t = 0; t < T; ++t) { unsigned k = 0; for (auto& c : progs[t]) {
             const char* kn = c.kind == 0 ? "push" : c.kind == 1 ? "by" : "to";
